@@ -47,7 +47,7 @@ def wl_trees(ctx, rng, case_no):
     from rich.measure import Measurement
     install()
     _ctx[0] = ctx
-    spec = SP.gen_spec(rng, depth=rng.choice([0, 1, 2, 3]), profile={})
+    spec = SP.gen_spec(rng, depth=rng.choice([0, 1, 2, 3]), profile={"vcenter": True})
     r = rng.random()
     if r < 0.08:
         spec = {"k": "nomeasure", "child": spec}
@@ -72,8 +72,15 @@ def wl_trees(ctx, rng, case_no):
         for label, value in (("max", mx), ("min", mn)):
             if value >= max(m, 1):
                 ctx.count("mon.render_at_" + label)
-                c2 = consoles.layout_console(value)
-                lw, lines = SP.render_lines_cells(c2, SP.build(spec))
+                if rng.random() < 0.35:
+                    # the same width handed down as OPTIONS on a wider console (how a parent renders a child): a
+                    # renderable that looks at the console's width instead of its options is only seen this way
+                    ctx.count("mon.render_with_options_narrower_than_console")
+                    c2 = consoles.layout_console(value + rng.choice([1, 7, 60]))
+                    lw, lines = SP.render_lines_cells(c2, SP.build(spec), c2.options.update(width=value))
+                else:
+                    c2 = consoles.layout_console(value)
+                    lw, lines = SP.render_lines_cells(c2, SP.build(spec))
                 worst = max(lw or [0])
                 if worst > value:
                     ctx.violation("render-at-reported-%s-overflows:top=%s" % (label, spec["k"]),
